@@ -287,6 +287,15 @@ pub fn build_api_model(cx: &mut Cx, nm: &mut Namer) -> A2lFile {
     if cx.tape.chance(1, 3) {
         file.project.module[0].mod_common = Some(ModCommon::new(api_string(cx)));
     }
+    if cx.tape.chance(1, 4) {
+        // an A2ML block created through the API; the text is raw text between the keywords
+        let text = cx.tape.pick_str(&["\n    block \"IF_DATA\" taggedunion { \"X\" int; };\n  ", " block \"IF_DATA\" taggedstruct { \"Y\" (uint)*; }; ", "\tblock \"IF_DATA\" taggedunion { \"X\" int; };\n", "block \"IF_DATA\" taggedunion { \"X\" int; };"]);
+        if !text.starts_with(|c: char| c.is_ascii_whitespace()) || !text.ends_with(|c: char| c.is_ascii_whitespace()) {
+            cx.trigger("api-built-a2ml-text-without-surrounding-white-space");
+        }
+        file.project.module[0].a2ml = Some(A2ml::new(text.to_string()));
+        cx.probe("api-built-a2ml-block");
+    }
     file
 }
 
@@ -1225,12 +1234,22 @@ impl Scenario for C01FixedInput {
             None => (false, text),
         };
         cx.event_lazy("fixed input", || text.clone());
-        let mut model = match sut::load_str(cx, "O1", &text, None, false)? {
-            Ok((m, _)) => m,
-            Err(e) => {
-                cx.vacuous = true;
-                cx.event(&format!("input not accepted: {e}"));
-                return Ok(());
+        // a first line "#api-a2ml" asks for a model built through the API whose A2ML block holds the rest of the input
+        let mut model = if let Some(a2ml_text) = text.strip_prefix("#api-a2ml\n") {
+            if !a2ml_text.starts_with(|c: char| c.is_ascii_whitespace()) || !a2ml_text.ends_with(|c: char| c.is_ascii_whitespace()) {
+                cx.trigger("api-built-a2ml-text-without-surrounding-white-space");
+            }
+            let mut f = a2lfile::new();
+            f.project.module[0].a2ml = Some(A2ml::new(a2ml_text.to_string()));
+            f
+        } else {
+            match sut::load_str(cx, "O1", &text, None, false)? {
+                Ok((m, _)) => m,
+                Err(e) => {
+                    cx.vacuous = true;
+                    cx.event(&format!("input not accepted: {e}"));
+                    return Ok(());
+                }
             }
         };
         if edit_sort {
